@@ -16,6 +16,10 @@ func (b *JustificationBits) Deserialize(dr *codec.DecodingReader) error {
 	if err != nil {
 		return err
 	}
+	// SSZ bitvector: the unused high bits of the last byte must be zero
+	if v>>JUSTIFICATION_BITS_LENGTH != 0 {
+		return fmt.Errorf("justification bits 0b%b have bits set beyond the %d used ones", v, JUSTIFICATION_BITS_LENGTH)
+	}
 	b[0] = v
 	return nil
 }
